@@ -145,6 +145,7 @@ func checkC01(p *Prog, res *Result, tier string) {
 	res.rule("C01-R7", "the index value carries the deletion flag exactly when the version record written with it is the deletion marker (also in the repair write, which re-plays either kind)", 4)
 	res.rule("C01-R8", "index and version records are written without an engine TTL, except by the classified Event create (C17-R5): a record that the engine removes by itself makes a later condition fail, or a create succeed, although no write intervened", 8)
 	res.rule("C01-R9", "a condition is reported as failed only for a failed condition: every package-level error variable is an error class of its own (none wraps another), so errors.Is(err, ErrCASFailed) on the write paths holds for failed compares only", 6)
+	res.rule("C01-R13", "a handler does not rewrite the verdict of the backend: no store into the Succeeded field of the response a Backend.Create / Update / Delete call returned (native handlers and etcd shim)", 4)
 	res.rule("C01-R12", "a condition is reported failed only by the compare: the native write handlers answer a write (nil error) with the response the backend returned, never with one they built themselves", 3)
 	res.rule("C01-R11", "each successful update lands above the revision it named: the revision written was allocated without error - in particular without 'revision drift back' (C02-R7)", 4)
 	res.rule("C01-R10", "the reader of the index record tells 'deleted' from 'live' the way the writers encode it - by the length of the record (8 bytes: revision; 9: revision and flag), never by the content of a revision byte", 2)
@@ -406,6 +407,7 @@ func checkC01(p *Prog, res *Result, tier string) {
 	checkSentinelIdentity(p, res, "C01-R9")
 	checkIndexReaderAgrees(p, res, "C01-R10")
 	checkHandlersAnswerWithBackendResult(p, r, res, "C01-R12")
+	checkHandlersKeepVerdict(p, r, res, "C01-R13")
 	// the chain is in revision order only if an update lands above the revision it is conditioned on: the allocator's
 	// drift-back error must not be dropped on the way to the commit (C02-R7)
 	{
